@@ -261,6 +261,11 @@ def run(chk, tier, seed, replay):
                 for d in derives:
                     greqs.append({"key": f"g{gi}|{d}|plain", "derive": d, "item": item, "tokens": True})
                     greqs.append({"key": f"g{gi}|{d}|group", "derive": d, "item": item, "tokens": True, "group_types": True})
+        for ci, (key, decl_text, _obs) in enumerate(CASES):
+            for derives, item in split_items(decl_text):
+                for d in derives:
+                    greqs.append({"key": f"gc{ci}|{d}|plain", "derive": d, "item": item, "tokens": True})
+                    greqs.append({"key": f"gc{ci}|{d}|group", "derive": d, "item": item, "tokens": True, "group_types": True})
         gobs = vlib.run_inproc("expand", greqs)
         for rq in greqs[::2]:
             a, b = gobs[rq["key"]], gobs[rq["key"].replace("|plain", "|group")]
@@ -285,6 +290,11 @@ def run(chk, tier, seed, replay):
                 for d in derives:
                     rreqs.append({"key": f"r{ci}|{d}|plain", "derive": d, "item": item, "tokens": True})
                     rreqs.append({"key": f"r{ci}|{d}|raw", "derive": d, "item": item, "tokens": True, "raw_names": True})
+        for gi, (fam, decl_text) in enumerate(GENERIC_ITEMS):
+            for derives, item in split_items(decl_text):
+                for d in derives:
+                    rreqs.append({"key": f"rg{gi}|{d}|plain", "derive": d, "item": item, "tokens": True})
+                    rreqs.append({"key": f"rg{gi}|{d}|raw", "derive": d, "item": item, "tokens": True, "raw_names": True})
         robs = vlib.run_inproc("expand", rreqs)
         for rq in rreqs[::2]:
             a, b = robs[rq["key"]], robs[rq["key"].replace("|plain", "|raw")]
